@@ -570,6 +570,11 @@ OFFSET_TABLES = ("comments", "padding", "symbolicExpressionSizes")
 
 
 def check_c04(mt, sess):
+    _check_exprs(mt, sess)
+    _check_offset_aux(mt, sess)
+
+
+def _check_exprs(mt, sess, allow_dup_names=False):
     from .driver import expr_desc
 
     world, model = mt.world, mt.model
@@ -613,6 +618,11 @@ def check_c04(mt, sess):
     for name, lst in byname.items():
         if len(lst) > 1:
             raise core.Violation("C04", "duplicate-symbol", {"symbol": name, "count": len(lst)}, {"origin": "any"})
+
+
+def _check_offset_aux(mt, sess):
+    world, model = mt.world, mt.model
+    m = world.module
     # --- offset-keyed aux data
     iv_unit = {}
     for sname, lst in mt.obs.sections.items():
@@ -1300,3 +1310,172 @@ def c18_pre(world):
     if fwd is not None:
         out["fwd"] = sorted((a.name, b.name) for a, b in fwd.data.items())
     return out
+
+
+# ------------------------------------------------------------------ C19
+
+C19_TABLES = ("elfSymbolInfo", "elfSymbolTabIdxInfo", "functionNames", "peImportedSymbols", "peExportedSymbols", "symbolForwarding")
+
+
+def _by_name(x):
+    """Aux data with symbols replaced by their names (json-able)."""
+    import uuid as _u
+
+    if isinstance(x, gtirb.Symbol):
+        return ("sym", x.name)
+    if isinstance(x, gtirb.Node):
+        return ("node", type(x).__name__)
+    if isinstance(x, _u.UUID):
+        return ("uuid", "null" if x.int == 0 else "id")
+    if hasattr(x, "items"):
+        return sorted(((_by_name(k), _by_name(v)) for k, v in x.items()), key=repr)
+    if isinstance(x, (set, frozenset)):
+        return sorted((_by_name(v) for v in x), key=repr)
+    if isinstance(x, (list, tuple)):
+        return [_by_name(v) for v in x]
+    return x
+
+
+def c19_pre(world):
+    m = world.module
+    out = {"tables": {}, "cfi": [], "symbols": sorted(s.name for s in m.symbols)}
+    for t in C19_TABLES:
+        ad = m.aux_data.get(t)
+        out["tables"][t] = _by_name(ad.data) if ad is not None else None
+    v = m.aux_data.get("elfSymbolVersions")
+    if v is not None:
+        defs, reqs, entries = v.data
+        out["versions"] = {
+            "defs": {int(k): (list(a), f) for k, (a, f) in defs.items()},
+            "reqs": {lib: dict(d) for lib, d in reqs.items()},
+            "entries": {s.name: (vid, bool(h)) for s, (vid, h) in entries.items()},
+        }
+    cfi = m.aux_data.get("cfiDirectives")
+    if cfi is not None:
+        for key, dirs in cfi.data.items():
+            el = key.element_id
+            for i, d in enumerate(dirs):
+                out["cfi"].append(((str(el.uuid), key.displacement, i), d[0], list(d[1]), d[2].name if isinstance(d[2], gtirb.Symbol) else None))
+    return out
+
+
+def _drop_names(x, names):
+    """_by_name data without every entry that mentions one of the names."""
+    def mentions(y):
+        if isinstance(y, tuple) and len(y) == 2 and y[0] == "sym":
+            return y[1] in names
+        if isinstance(y, (list, tuple)):
+            return any(mentions(z) for z in y)
+        return False
+
+    if isinstance(x, list):
+        return [_drop_names(v, names) for v in x if not mentions(v)]
+    return x
+
+
+def check_c19(mt, sess):
+    world, model = mt.world, mt.model
+    m = world.module
+    pre = sess.c19_pre
+    deleted = set(sess.delsyms)
+    sig0 = {"ndeleted": len(deleted)}
+    if not deleted:
+        return
+    # the symbols are gone
+    left = sorted(s.name for s in m.symbols if s.name in deleted)
+    if left:
+        raise core.Violation("C19", "symbol-left", {"symbols": left}, sig0)
+    other = sorted(n for n in pre["symbols"] if n not in deleted)
+    now = sorted(s.name for s in m.symbols)
+    lost = [n for n in other if n not in now]
+    if lost:
+        raise core.Violation("C19", "collateral-change", {"what": "symbols that were not asked for are gone", "symbols": lost[:5]}, {**sig0, "table": "symbols"})
+    # no aux table mentions a deleted symbol; everything else is untouched
+    live = {s.uuid for s in m.symbols}
+    for name, ad in sorted(m.aux_data.items()):
+        nodes = []
+        from .validate import _norm
+
+        _norm(ad.data, nodes)
+        for n in nodes:
+            if isinstance(n, gtirb.Symbol) and n.uuid not in live:
+                raise core.Violation("C19", "table-mention", {"table": name, "symbol": n.name}, {**sig0, "table": name})
+    for t in C19_TABLES:
+        ad = m.aux_data.get(t)
+        cur = _by_name(ad.data) if ad is not None else None
+        want = _drop_names(pre["tables"][t], deleted) if pre["tables"][t] is not None else None
+        if t == "functionNames" and cur is not None and want is not None:
+            # only the name entry goes; compare as sets of names
+            cur = sorted(v for _, v in cur)
+            want = sorted(v for _, v in want)
+        if (cur or None) != (want or None):
+            raise core.Violation("C19", "collateral-change", {"table": t, "expected": str(want)[:300], "real": str(cur)[:300]}, {**sig0, "table": t})
+    # CFI: mentions carry the null UUID (DW_EH_PE_omit for personality/LSDA)
+    cfi = m.aux_data.get("cfiDirectives")
+    nowc = {}
+    if cfi is not None:
+        for key, dirs in cfi.data.items():
+            for i, d in enumerate(dirs):
+                nowc[(str(key.element_id.uuid), key.displacement, i)] = (d[0], list(d[1]), d[2].name if isinstance(d[2], gtirb.Symbol) else ("null" if getattr(d[2], "int", 1) == 0 else "uuid"))
+    if True:
+        for k, name, args, sym in pre["cfi"]:
+            got = nowc.get(k)
+            if sym in deleted:
+                want = (name, [0xFF], "null") if name in (".cfi_personality", ".cfi_lsda") else (name, args, "null")
+            else:
+                want = (name, args, sym if sym is not None else "null")
+            if got != want:
+                raise core.Violation("C19", "cfi-not-nulled" if sym in deleted else "collateral-change", {"directive": name, "expected": want, "real": got}, {**sig0, "table": "cfiDirectives"})
+    # symbol versions: definitions / requirements dropped iff unused
+    if "versions" in pre:
+        v = m.aux_data.get("elfSymbolVersions")
+        defs, reqs, entries = v.data
+        want_entries = {n: e for n, e in pre["versions"]["entries"].items() if n not in deleted}
+        keep = {vid for vid, _ in want_entries.values()}
+        want_defs = {k: d for k, d in pre["versions"]["defs"].items() if k in keep or d[1] == 1}
+        want_reqs = {}
+        for lib, d in pre["versions"]["reqs"].items():
+            dd = {k: ver for k, ver in d.items() if k in keep}
+            if dd or not d:
+                want_reqs[lib] = dd
+        got_entries = {s.name: (vid, bool(h)) for s, (vid, h) in entries.items()}
+        got_defs = {int(k): (list(a), f) for k, (a, f) in defs.items()}
+        got_reqs = {lib: dict(d) for lib, d in reqs.items()}
+        if got_entries != want_entries or got_defs != want_defs or got_reqs != want_reqs:
+            raise core.Violation(
+                "C19",
+                "version-gc",
+                {"expected": {"defs": str(want_defs), "reqs": str(want_reqs), "entries": str(want_entries)}, "real": {"defs": str(got_defs), "reqs": str(got_reqs), "entries": str(got_entries)}},
+                {**sig0, "part": "entries" if got_entries != want_entries else ("defs" if got_defs != want_defs else "reqs")},
+            )
+    # expressions: exactly those that used a (forced) symbol are gone
+    try:
+        _check_exprs(mt, sess)
+    except core.Violation as v:
+        cls = "expr-left" if v.vclass == "expr-spurious" else ("expr-collateral" if v.vclass in ("expr-lost", "expr-moved", "expr-attrs/addend") else "collateral-change")
+        raise core.Violation("C19", cls, v.witness, {**sig0, "via": v.vclass})
+    # still serializable
+    import io
+
+    buf = io.BytesIO()
+    try:
+        world.ir.save_protobuf_file(buf)
+        buf.seek(0)
+        gtirb.IR.load_protobuf_file(buf)
+    except Exception as e:
+        raise core.Violation("C19", "roundtrip", {"error": f"{type(e).__name__}: {e}"[:300]}, {**sig0, "exc": type(e).__name__})
+
+
+def c19_uses(model, names):
+    """Which of the names are still mentioned by an expression of the
+    listing (before the deletion is applied to the model)."""
+    names = set(names)
+    used = set()
+    for _, u in model.units():
+        for t in u.toks:
+            for rel, size, ed in t.sx:
+                if ed[1] in names:
+                    used.add(ed[1])
+                if ed[0] == "diff" and ed[2] in names:
+                    used.add(ed[2])
+    return sorted(used)
